@@ -1,8 +1,6 @@
 package main
 
 import (
-	"time"
-	"runtime"
 	"bytes"
 	"encoding/json"
 	"errors"
@@ -13,9 +11,11 @@ import (
 	"os"
 	"path/filepath"
 	"regexp"
+	"runtime"
 	"sort"
 	"strconv"
 	"strings"
+	"time"
 
 	"go.uber.org/zap"
 	"go.uber.org/zap/zapcore"
